@@ -17,6 +17,7 @@
 //                  dxT_d(n) lamT_d dxT_s(n) lamT_s dxL_d(n) dphi_d dxL_s(n) dphi_s cn_d(n) cn_s(n) cn_r(n)
 //   (T = solve_trust_region(J,d,r,Delta); L = solve_linear_ldlt(J,d,r,lambda,dphi); _d dense, _s sparse
 //    column-major with the same non-zero entries; cn = colwise_norm dense / sparse col-major / sparse row-major)
+#include <Eigen/Dense>
 #include <smooth/optim.hpp>
 
 #include <functional>
@@ -136,8 +137,8 @@ static double dyad(Rng & r, int bits, double scale)
 
 static const char * JKIND[] = {"full", "rankdef", "zerocol", "dupcol", "wide", "illscaled", "sparse", "tiny", "dyadic", "zeroJ"};
 constexpr int NJK           = 10;
-static const char * RKIND[] = {"rand", "zero", "consistent", "big", "tinyr"};
-constexpr int NRK           = 5;
+static const char * RKIND[] = {"rand", "zero", "consistent", "big", "tinyr", "near_orth"};
+constexpr int NRK           = 6;
 static const char * DKIND[] = {"colnorm_clamped", "loguni", "ones"};
 constexpr int NDK           = 3;
 
@@ -206,6 +207,14 @@ static void gen_tr(FILE * out, Rng & rng, int idx)
   }
   case 3: r *= rng.logu(1e3, 1e8); break;
   case 4: r *= rng.logu(1e-12, 1e-6); break;
+  case 5: {  // r nearly orthogonal to range(J): the situation near convergence of a non-zero-residual problem
+    const VectorXd c = J.completeOrthogonalDecomposition().solve(r);
+    r -= J * c;
+    VectorXd w(n);
+    for (int j = 0; j < n; ++j) w(j) = rng.normal();
+    r += rng.logu(1e-14, 1e-3) * (J * w);
+    break;
+  }
   default: break;
   }
   VectorXd d(n);
@@ -502,7 +511,8 @@ std::vector<RunOut> run_problem(P & prob, const RunCfg & cfg, FILE * trout, int 
     if (call > 0) xcur = prob.x0;  // second call restarts from the same point with the used strategy object
 
     ls->on_step = [&](double rho, bool take, double db, double da) {
-      IterRec it = reconstruct<DE>(prob.f, lg, ls->last_get, rho, trout, &tr_budget, tag);
+      const size_t kk = ro.its.size();  // the solver calls of iterations 0, 2 and 5 are also emitted as opt_tr lines
+      IterRec it = reconstruct<DE>(prob.f, lg, ls->last_get, rho, (kk == 0 || kk == 2 || kk == 5) ? trout : nullptr, &tr_budget, tag);
       it.delta_before = ls->last_get;
       if (!same_bits(db, ls->last_get)) {
         it.recon_ok = false;
